@@ -21,7 +21,7 @@ try:
             print('PATCH DOES NOT APPLY:', r.stdout[:300]); sys.exit(3)
     env = dict(os.environ, VERIF_REPO_DIR=wt, VERIF_OUT_DIR=out)
     for c in args:
-        p = sh('/verif/check', c, '--tier', tier, cwd='/verif', env=env)
+        p = sh(os.path.join(os.path.dirname(os.path.dirname(os.path.abspath(__file__))), 'check'), c, '--tier', tier, cwd=os.path.dirname(os.path.dirname(os.path.abspath(__file__))), env=env)
         lines = [l for l in p.stdout.splitlines() if l.startswith(('VIOLATION', 'KNOWN', 'MACHINERY', '  stage=', '  diagnosis'))]
         print('== %s rc=%d' % (c, p.returncode))
         for l in lines[:6]:
